@@ -241,6 +241,7 @@ def run(ctx, n=None):
     finally:
         w.close()
     deep_nesting_probe(ctx, res)
+    read_exact_correspondence(ctx, res, ctx.budget(1500, 40000, 6000))
     # model correspondence
     lines = ["ser.loads %s0 %s" % (mode[:2], pyval.hexs(data)) for data, mode, _ in items]
     outs = ctx.driver.ask(lines)
@@ -265,6 +266,69 @@ def run(ctx, n=None):
         else:
             res.mismatches.append(dict(op="ser.loads", hex=pyval.hexs(data)[:300], mode=mode, impl=impl[:300], model=out[:300]))
     return res
+
+
+class ChunkStream:
+    """the adversary of Model/Chunk.lean: read(k) hands out the next chunk if it has at most k bytes, else its first k bytes"""
+
+    def __init__(self, chunks):
+        self.chunks = [bytes(c) for c in chunks]
+
+    def read(self, k=-1):
+        if not self.chunks:
+            return b""
+        c = self.chunks[0]
+        if k is None or k < 0 or len(c) <= k:
+            self.chunks.pop(0)
+            return c
+        self.chunks[0] = c[k:]
+        return c[:k]
+
+
+def read_exact_correspondence(ctx, res, n):
+    """Unserializer._read_exact(k) on chunked streams against `rdx.run` (unserReadExact); model-free: the result is the next k
+    bytes as `bytes`, the rest stays, EOFError names what was there"""
+    gb = ctx.execnet.gateway_base
+    rng = ctx.rng("read-exact")
+    cases = []
+    for i in range(n):
+        nchunks = rng.choice([0, 1, 2, 3, 5, 8])
+        chunks = [bytes(rng.randrange(256) for _ in range(rng.choice([1, 1, 2, 3, 7, 20]))) for _ in range(nchunks)]
+        if chunks and rng.random() < 0.15:
+            chunks.insert(rng.randrange(len(chunks) + 1), b"")   # a read that returns nothing although more follows
+        total = sum(len(c) for c in chunks)
+        k = rng.choice([0, 1, 2, 4, total, max(0, total - 1), total + 1, rng.randrange(total + 3)])
+        st = ChunkStream(chunks)
+        try:
+            got = gb.Unserializer(st)._read_exact(k)
+            impl = "ok %s rest=%s" % (pyval.hexs(got) if got else "-", pyval.hexs(b"".join(st.chunks)) if b"".join(st.chunks) else "-")
+            typ = type(got)
+        except EOFError as e:
+            m = __import__("re").search(r"got (\d+)", str(e))
+            impl = "err %s" % (m.group(1) if m else "?")
+            typ = bytes
+        except BaseException as e:  # noqa: BLE001
+            impl = "raise " + type(e).__name__
+            typ = bytes
+        case = {"read_exact": k, "chunks": [pyval.hexs(c) for c in chunks]}
+        res.count(("rdx", k, tuple(chunks)), nontrivial=nchunks >= 2)
+        res.stat("read_exact_" + impl.split()[0])
+        data = b"".join(chunks)
+        clean = b"" not in chunks
+        if clean:
+            want = ("ok %s rest=%s" % (pyval.hexs(data[:k]) or "-", pyval.hexs(data[k:]) or "-")) if k <= len(data) else "err %d" % len(data)
+            if impl != want or typ is not bytes:
+                res.violations.append(dict(case=case, finding=None, impl=impl,
+                                           what="_read_exact(%d) on a stream handing out %r-byte pieces: %s (%s), expected %s as bytes" % (
+                                               k, [len(c) for c in chunks], impl[:120], typ.__name__, want[:120])))
+                continue
+        cases.append((case, impl, "rdx.run %d %s" % (k, " ".join(pyval.hexs(c) if c else "-" for c in chunks))))
+    outs = ctx.driver.ask([l for _c, _i, l in cases])
+    for (case, impl, line), out in zip(cases, outs):
+        if impl == out:
+            res.traces += 1
+        else:
+            res.mismatches.append(dict(op="rdx.run", case=case, impl=impl, model=out, line=line[:300]))
 
 
 def deep_nesting_probe(ctx, res):
